@@ -8,6 +8,7 @@ import (
 	"context"
 	"errors"
 	"fmt"
+	"io"
 	"sort"
 	"strings"
 	"sync"
@@ -79,6 +80,8 @@ const (
 	EChained = NumErrKinds + 9
 	// ESameValue: every failing attempt of a visit returns the very same error value (a reused sentinel)
 	ESameValue = NumErrKinds + 10
+	// EIOEOF: the callback fails with io.EOF itself / an error wrapping io.EOF (a well-known sentinel a library might be tempted to use internally)
+	EIOEOF = NumErrKinds + 11
 )
 
 // PermErr is a permanent-looking error.
@@ -104,7 +107,7 @@ type MultiErr []error
 func (m MultiErr) Error() string { return fmt.Sprintf("%d errors", len(m)) }
 
 // AllErrKinds lists every error kind a callback can be scripted to fail with (ECtxAware excluded: it depends on the context).
-var AllErrKinds = []int{ESentinel, EWrapped, ECustom, ECtxLike, EUncomparable, EJoined, ENestedRun, ETemporary, ETypedNil, ENilSliceErr, ENotTemporary, EChained, ESameValue}
+var AllErrKinds = []int{ESentinel, EWrapped, ECustom, ECtxLike, EUncomparable, EJoined, ENestedRun, ETemporary, ETypedNil, ENilSliceErr, ENotTemporary, EChained, ESameValue, EIOEOF}
 
 // UncompErr is an error whose dynamic type is not comparable.
 type UncompErr struct {
@@ -180,6 +183,8 @@ type Inject struct {
 	// OneRun: the injection applies to run number Run only (0-based); the other runs of the scenario get a live context
 	OneRun bool `json:"one_run,omitempty"`
 	Run    int  `json:"run,omitempty"`
+	// Alt: injection kind used in odd-numbered runs instead of Kind (e.g. run 0 is cancelled, run 1 hits a deadline)
+	Alt string `json:"alt,omitempty"`
 }
 
 // Scenario is a complete case.
@@ -195,6 +200,7 @@ type Scenario struct {
 	MaxCallbacks     int        `json:"max_callbacks,omitempty"`      // runaway bound override for long-cycle scenarios
 	StrayFlowRetries int        `json:"stray_flow_retries,omitempty"` // > 0: an unrelated flow object gets retries configured on its BaseNode before the run: must not affect this hierarchy
 	MidConnect       []MidConn  `json:"mid_connect,omitempty"`        // Connect calls made from inside a callback while the flow is running
+	NilStore         bool       `json:"nil_store,omitempty"`          // the run is given a nil *SharedStore: prep and post receive exactly that
 }
 
 // MidConn is a Connect call made on flow node Flow from inside the Phase callback (prep | exec (first attempt) | post)
@@ -281,6 +287,7 @@ type Exec struct {
 	ctxFlagged  bool
 	getterCalls atomic.Int64
 	dwelling    atomic.Int32 // 1 while the cancel-dwell callback is still inside its dwell
+	curKind     string       // injection kind in force in the current run
 }
 
 type core struct {
@@ -373,6 +380,9 @@ func (x *Exec) enter() (ordinal int) {
 	ordinal = x.seq
 	x.mu.Unlock()
 	inj := x.Sc.Inject
+	if inj.Alt != "" && x.curKind != "" {
+		inj.Kind = x.curKind
+	}
 	if inj.Kind == "real-timeout" && ordinal < inj.At && x.ctx.Err() != nil {
 		x.tripped.Store(true) // expired before the chosen position: case will be discarded
 	}
@@ -430,6 +440,12 @@ func (x *Exec) mkErr(kind int, id string) error {
 	case EUncomparable:
 		sentinel = UncompErr{ID: id, Tags: []string{"a"}}
 		ret = sentinel
+	case EIOEOF:
+		sentinel = io.EOF
+		ret = io.EOF
+		if len(id)%2 == 0 {
+			ret = fmt.Errorf("reading %s: %w", id, io.EOF)
+		}
 	case ENotTemporary:
 		sentinel = &PermErr{ID: id}
 		ret = fmt.Errorf("lookup failed: %w", sentinel)
@@ -1020,7 +1036,12 @@ func (x *Exec) build(id int) flyt.Node {
 	case KFlow:
 		// placeholder first (cycles through nested flows are not generated)
 		fs := spec.Flow
-		f := flyt.NewFlow(x.build(fs.Start))
+		var f *flyt.Flow
+		if fs.Start < 0 {
+			f = flyt.NewFlow(nil) // a flow that has no start node (yet): an error if it is ever entered, nothing before
+		} else {
+			f = flyt.NewFlow(x.build(fs.Start))
+		}
 		if fs.Retries > 1 {
 			flyt.WithMaxRetries(fs.Retries)(f.BaseNode)
 		}
@@ -1074,6 +1095,9 @@ func (x *Exec) RunOnce() (out Outcome) {
 	if x.store == nil || x.Sc.FreshStore {
 		x.store = flyt.NewSharedStore()
 	}
+	if x.Sc.NilStore {
+		x.store = nil
+	}
 	x.mu.Lock()
 	x.events = nil
 	x.seq = 0
@@ -1083,9 +1107,13 @@ func (x *Exec) RunOnce() (out Outcome) {
 	var ctx context.Context = context.Background()
 	var stop func() = func() {}
 	injKind := x.Sc.Inject.Kind
+	if x.Sc.Inject.Alt != "" && x.runIdx%2 == 1 {
+		injKind = x.Sc.Inject.Alt
+	}
 	if x.Sc.Inject.OneRun && x.Sc.Inject.Run != x.runIdx {
 		injKind = "(none in this run)"
 	}
+	x.curKind = injKind
 	x.getterCalls.Store(0)
 	switch injKind {
 	case "cancel", "pre-cancel", "cancel-in-getter", "cancel-dwell":
@@ -1173,8 +1201,10 @@ func (x *Exec) RunOnce() (out Outcome) {
 	x.mu.Lock()
 	out.Events = append([]Event(nil), x.events...)
 	x.mu.Unlock()
-	if lg, ok := x.store.Get("log"); ok {
-		out.Store, _ = lg.([]string)
+	if x.store != nil {
+		if lg, ok := x.store.Get("log"); ok {
+			out.Store, _ = lg.([]string)
+		}
 	}
 	if x.Sc.Inject.Kind == "real-timeout" && (x.tripped.Load() || x.cancelSeq < 0) {
 		out.Discard = true
